@@ -37,6 +37,9 @@ enum conf_node_type {
 
 struct conf_node_base;
 
+/** Deepest nesting of objects accepted in a configuration file. */
+#define CONF_MAX_DEPTH 64
+
 #define CONF_UPDATE_HOOK(NAME) void NAME(struct conf_node_base *node_)
 typedef CONF_UPDATE_HOOK(conf_update_hook_f);
 
